@@ -41,12 +41,14 @@ int main(int argc, char** argv) {
         if (w.size() == 8 && w[0] == "rtx") {
             std::string const &fmt = w[1], &pix = w[2], &org = w[3], &dev = w[4];
             int W = (int)hv::to_ll(w[5]), H = (int)hv::to_ll(w[6]); bytes px = unhex(w[7]);
-#define RTX(F, P, TAG, IMG, CB, PL, ALT) if (fmt == F && pix == P) return round_trip<gil::TAG, gil::IMG, CB, PL, ALT>(org, dev, W, H, px, path, false);
+// alt / alt2 / alt3: other channel orders of the same colour space (the writers must normalise the order); Full = false: il / step / fliplr / transp only
+#define RTX(F, P, TAG, IMG, CB, PL, ALT) if (fmt == F && pix == P) return round_trip<gil::TAG, gil::IMG, CB, PL, ALT, gil::TAG, void, void, false>(org, dev, W, H, px, path, false);
+#define RTX3(F, P, TAG, IMG, CB, PL, ALT, ALT2, ALT3) if (fmt == F && pix == P) return round_trip<gil::TAG, gil::IMG, CB, PL, ALT, gil::TAG, ALT2, ALT3, false>(org, dev, W, H, px, path, false);
 #define RTP(F, P, TAG, IMG, CB) if (fmt == F && pix == P) return round_trip_plain<gil::TAG, gil::IMG, CB>(org, dev, W, H, px, path, false);
 #if SEL(1)
             RTX("png", "gray8", png_tag, gray8_image_t, 1, void, void)
             RTX("png", "rgb8", png_tag, rgb8_image_t, 1, gil::rgb8_planar_image_t, gil::bgr8_image_t)
-            RTX("png", "rgba8", png_tag, rgba8_image_t, 1, gil::rgba8_planar_image_t, gil::abgr8_image_t)
+            RTX3("png", "rgba8", png_tag, rgba8_image_t, 1, gil::rgba8_planar_image_t, gil::bgra8_image_t, gil::abgr8_image_t, gil::argb8_image_t)
             RTP("png", "ga8", png_tag, gray_alpha8_image_t, 1)
 #endif
 #if SEL(2)
@@ -63,16 +65,17 @@ int main(int argc, char** argv) {
 #if SEL(4) || SEL(5) || SEL(6) || SEL(7)
             { gil::image_write_info<gil::tiff_tag> info; std::string why;
               if (tiff_info(fmt, info, why)) {
-#define RTT(P, IMG, CB, PL, ALT) if (pix == P) return round_trip<gil::tiff_tag, gil::IMG, CB, PL, ALT>(org, dev, W, H, px, path, false, info);
+#define RTT(P, IMG, CB, PL, ALT) if (pix == P) return round_trip<gil::tiff_tag, gil::IMG, CB, PL, ALT, gil::image_write_info<gil::tiff_tag>, void, void, false>(org, dev, W, H, px, path, false, info);
+#define RTT2(P, IMG, CB, PL, ALT, ALT2) if (pix == P) return round_trip<gil::tiff_tag, gil::IMG, CB, PL, ALT, gil::image_write_info<gil::tiff_tag>, ALT2, void, false>(org, dev, W, H, px, path, false, info);
 #define RTTP(P, IMG) if (pix == P) return round_trip_plain<gil::tiff_tag, gil::IMG, 1>(org, dev, W, H, px, path, false, info);
 #if SEL(4)
                 RTT("gray8", gray8_image_t, 1, void, void)
                 RTT("rgb8", rgb8_image_t, 1, gil::rgb8_planar_image_t, gil::bgr8_image_t)
 #endif
 #if SEL(5)
-                RTT("rgba8", rgba8_image_t, 1, gil::rgba8_planar_image_t, void)
+                RTT2("rgba8", rgba8_image_t, 1, gil::rgba8_planar_image_t, gil::bgra8_image_t, gil::abgr8_image_t)
                 RTT("gray16", gray16_image_t, 2, void, void)
-                RTT("rgb16", rgb16_image_t, 2, gil::rgb16_planar_image_t, void)
+                RTT("rgb16", rgb16_image_t, 2, gil::rgb16_planar_image_t, gil::bgr16_image_t)
 #endif
 #if SEL(6)
                 RTT("gray32", gray32_image_t, 4, void, void)
